@@ -2,7 +2,7 @@
    Statements only.  Proofs: Proofs/RunnerP.v (on top of the dispatcher invariants of
    Proofs/DispatchInv.v: a node whose generator passed its last `yield this_task` is never handed
    to the runner again). *)
-From DoitV Require Import Base Dispatch Runner Parallel DispatchP DispatchInv RunnerTr RunnerP ParallelP AncP CompleteP TermP LiveP.
+From DoitV Require Import Base Dispatch Runner Parallel DispatchP DispatchInv RunnerTr RunnerP ParallelP AncP HoldP HoldG CompleteP ParHoldP TermP LiveP OrderP.
 Open Scope N_scope.
 
 (* serial runner, every task table / selection / flags / set-iteration oracle / fuel:
@@ -121,3 +121,55 @@ Proof. vm_compute. reflexivity. Qed.
 (* NOT YET PROVED (checked by the correspondence + oracle only): AT LEAST one final report per task of
    the closure when the run is not cut short, and nothing outside the closure is processed
    (needs the progress invariant of C09). *)
+
+(* AT LEAST ONE final report, parallel runners, every schedule, both flavours, at least one worker: if the exit
+   code is 0 -- or, under --continue, 0, 1 or 2: anything but a diagnostic (3), an interrupt (4), a hang of the
+   model (98) or out of fuel (99) -- every selected task has a final report in the merged log; with
+   C02_one_final_report_parallel: exactly one.  (Proofs/ParHoldP.v: proc_count only reaches 0 through JNone
+   jobs, issued when the run is being stopped or the dispatcher is exhausted; an exhausted dispatcher stays
+   exhausted; at proc_count = 0 nothing is in flight (counting invariant), so by the wait-graph invariant
+   relative to the tasks in flight every node is finished, and RI links a final status to its report.) *)
+Theorem C02_exit_0_every_selected_task_reported_parallel :
+  forall tasks wake_rank calc_rank continue_ always proc fuel nprocs sched selection,
+    (0 < nprocs)%nat ->
+    snd (run_parallel tasks wake_rank calc_rank continue_ always proc fuel nprocs sched selection) = 0 ->
+    forall x, In x selection ->
+      pfinished (fst (run_parallel tasks wake_rank calc_rank continue_ always proc fuel nprocs sched selection)) x.
+Proof. exact parallel_complete_success. Qed.
+Print Assumptions C02_exit_0_every_selected_task_reported_parallel.
+
+Theorem C02_continue_every_selected_task_reported_parallel :
+  forall tasks wake_rank calc_rank always proc fuel nprocs sched selection,
+    (0 < nprocs)%nat ->
+    snd (run_parallel tasks wake_rank calc_rank true always proc fuel nprocs sched selection) <= 2 ->
+    forall x, In x selection ->
+      pfinished (fst (run_parallel tasks wake_rank calc_rank true always proc fuel nprocs sched selection)) x.
+Proof. exact parallel_complete_continue. Qed.
+Print Assumptions C02_continue_every_selected_task_reported_parallel.
+
+(* non-vacuity: a failing task under --continue, exit code 1, processes; and the hypothesis 0 < nprocs is needed:
+   with no worker the model's run_tasks returns at once, exit code 0, nothing reported *)
+Example C02_parallel_complete_nonvacuous :
+  snd (run_parallel ex02f (fun _ _ => 0) (fun _ => 0) true false true 200 2 [1; 0; 1; 1; 0]%nat [1; 2]) = 1 /\
+  snd (run_parallel ex02f (fun _ _ => 0) (fun _ => 0) true false false 200 3 [1; 0; 1; 1; 0]%nat [0; 2]) = 2 /\
+  run_parallel ex02f (fun _ _ => 0) (fun _ => 0) false false false 200 0 []%nat [2] = ([PE EClose], 0).
+Proof. repeat split; vm_compute; reflexivity. Qed.
+
+(* nothing outside the closure is processed: every event of a serial run (get_status, skip, execute, success/failure,
+   save/remove, teardown, interrupt) is about a selected task or a task reachable from one through effective
+   dependencies; no node is ever created for another task; any table (cyclic or not), flags, oracles, fuel
+   (Proofs/OrderP.v, by sub-agent; the converse -- every task of the closure is processed -- holds for selected
+   tasks and tasks with a node, see above; in general the results of a FAILED calc_dep task never enter the closure) *)
+Theorem C02_nothing_outside_closure_serial :
+  forall tasks wake_rank calc_rank continue_ always fuel selection e k,
+  In e (fst (run_serial tasks wake_rank calc_rank continue_ always fuel selection)) -> ev_task e = Some k ->
+  needed tasks selection k.
+Proof. exact serial_closure_events. Qed.
+Print Assumptions C02_nothing_outside_closure_serial.
+
+Theorem C02_no_node_outside_closure_serial :
+  forall tasks wake_rank calc_rank continue_ always fuel selection r' s,
+  serial tasks wake_rank calc_rank continue_ always fuel (r_init selection) None = (r', s) ->
+  forall x, d_nodes (r_d r') x <> None -> needed tasks selection x.
+Proof. exact serial_closure_nodes. Qed.
+Print Assumptions C02_no_node_outside_closure_serial.
